@@ -124,7 +124,13 @@ class OggVCommentDict(VCommentDict):
         # plus grab any stray setup packet data out of them.
         fileobj.seek(0)
         page = OggPage(fileobj)
-        while not (page.packets and page.packets[0].startswith(b"\x03vorbis")):
+        # The tags were read from the stream of the first identification
+        # header; other Vorbis streams in the file are not ours.
+        while not (page.packets and page.packets[0].startswith(b"\x01vorbis")):
+            page = OggPage(fileobj)
+        serial = page.serial
+        while not (page.serial == serial and page.packets and
+                   page.packets[0].startswith(b"\x03vorbis")):
             page = OggPage(fileobj)
 
         old_pages = [page]
